@@ -1,0 +1,6 @@
+//go:build verif
+
+package parser
+
+// VerifNormalizeNumber exposes normalizeNumber to the verification harness.
+var VerifNormalizeNumber = normalizeNumber
